@@ -34,7 +34,7 @@ fn main() {
     }
     let cmd = argv[1].clone();
     if cmd == "gcprobe" { gcprobe::run(&argv[2]); return; }
-    if cmd == "probe" { if argv[2] == "handles" { probes::handles(); } else if argv[2] == "c02-guard-children" { probes::guard_children(); } else { probes::run(&argv[2]); } return; }
+    if cmd == "probe" { if argv[2] == "handles" { probes::handles(); } else if argv[2] == "c02-guard-children" { probes::guard_children(); } else if argv[2] == "closure-labels" { probes::closure_labels(); } else { probes::run(&argv[2]); } return; }
     let mut a = Args { prop: argv[2].clone(), seed: 1, n: 300, tier: "quick".into(), out: PathBuf::from("work") };
     let mut i = 3;
     while i < argv.len() {
